@@ -140,9 +140,12 @@ def run_markers_from_p_mask(stats_path, mask_path, out, tmp_dir,
 
 def run_query_markers(ref_marker_path, query_genes, out_json, tmp_dir,
                       n_processors=2, n_per_utility=3, behemoth_cutoff=1000,
-                      drop_level=None, override=None):
+                      drop_level=None, override=None, search=None):
     from cell_type_mapper.type_assignment.marker_cache_v2 import (
         create_marker_gene_lookup_from_ref_list)
+    kw = {}
+    if search is not None:
+        kw['search_for_stats_file'] = bool(search)
     with quiet():
         lookup = create_marker_gene_lookup_from_ref_list(
             reference_marker_path_list=[str(ref_marker_path)],
@@ -152,7 +155,7 @@ def run_query_markers(ref_marker_path, query_genes, out_json, tmp_dir,
             n_processors=n_processors,
             behemoth_cutoff=behemoth_cutoff,
             tmp_dir=str(tmp_dir),
-            drop_level=drop_level)
+            drop_level=drop_level, **kw)
     lookup = dict(lookup)
     log = lookup.pop('log', None)
     if out_json is not None:
